@@ -468,6 +468,7 @@ def run_quant(prop, tier, seed):
     if prop == "C06":
         import temperature
         temperature.compare_cases_for(v, "C06", tier, seed)
+        temperature.arith_reexpression(v, "C06", seed)
     if prop in ("C03", "C06", "C12"):
         import ledger
         ledger.run(v, prop, tier, seed)     # code -> spec: recorded programs over the shipped units
